@@ -212,6 +212,9 @@ func classifyErr(err error, o *Obs) {
 		const pre = "unknown flag `"
 		if strings.HasPrefix(msg, pre) && strings.HasSuffix(msg, "'") {
 			o.ErrWord = toS(msg[len(pre) : len(msg)-1])
+		} else if i, j := strings.Index(msg, "`"), strings.LastIndex(msg, "'"); i >= 0 && j > i {
+			// another wording: the named flag is what stands between the first back-quote and the last quote
+			o.ErrWord = toS(msg[i+1 : j])
 		}
 	case flags.ErrUnknownCommand:
 		const pre = "Unknown command `"
@@ -229,6 +232,11 @@ func classifyErr(err error, o *Obs) {
 			}
 			if cut >= 0 {
 				o.ErrWord = toS(rest[:cut])
+			}
+		} else if i := strings.Index(msg, "`"); i >= 0 {
+			// another wording: the word is the first quoted item
+			if j := strings.Index(msg[i+1:], "'"); j >= 0 {
+				o.ErrWord = toS(msg[i+1 : i+1+j])
 			}
 		}
 	case flags.ErrRequired:
